@@ -32,6 +32,7 @@ from xmlschema.caching import schema_cache
 
 from .exceptions import XMLSchemaValidationError, XMLSchemaParseError, \
     XMLSchemaCircularityError, XMLSchemaDecodeError, XMLSchemaEncodeError
+from .helpers import integer_to_python
 from .validation import ValidationContext, EncodeContext, ValidationMixin, DecodeContext
 from .xsdbase import XsdComponent, XsdType
 from .facets import XsdFacet, XsdWhiteSpaceFacet, XsdPatternFacets, \
@@ -693,7 +694,9 @@ class XsdAtomicBuiltin(XsdAtomic):
         super().__init__(elem, schema, None, name, facets, base_type)
         self.datatype = datatype
         self.python_type = python_type
-        self.to_python = to_python if to_python is not None else python_type
+        if to_python is None:
+            to_python = integer_to_python if python_type is int else python_type
+        self.to_python = to_python
         self.from_python = from_python if from_python is not None else str
 
         self.post_decode = name in (nm.XSD_QNAME, nm.XSD_NOTATION, nm.XSD_ID, nm.XSD_IDREF)
